@@ -96,6 +96,39 @@ fn main() {
         std::process::exit(1);
       }
     }
+    // a computation that panics inside the eight-char provider's critical section on one caller
+    // while another caller asks valid eight characters: nobody may be harmed (poison recovery),
+    // no data race, no deadlock
+    "d" => {
+      use tyme4rs::tyme::solar::SolarTime;
+      use tyme4rs::tyme::Culture;
+      let ask = |y: isize, mo: usize, d: usize| -> String {
+        match catch_unwind(|| SolarTime::from_ymd_hms(y, mo, d, 12, 0, 0).get_lunar_hour().get_eight_char().get_name()) {
+          Ok(s) => s,
+          Err(_) => "refused".to_string(),
+        }
+      };
+      let expect = ask(2000, 1, 7);
+      let bar = Arc::new(Barrier::new(2));
+      let b0 = bar.clone();
+      let t0 = thread::spawn(move || {
+        b0.wait();
+        let r = ask(1, 1, 1);
+        (r, String::new())
+      });
+      let b1 = bar.clone();
+      let t1 = thread::spawn(move || {
+        b1.wait();
+        (ask(2000, 1, 7), ask(2000, 1, 7))
+      });
+      let r0 = t0.join().unwrap();
+      let r1 = t1.join().unwrap();
+      let after = ask(2000, 1, 7);
+      if r0.0 != "refused" || r1.0 != expect || r1.1 != expect || after != expect {
+        println!("C10-MISMATCH eight-char under a panicking provider call: {:?} {:?} after={} expected {}", r0, r1, after, expect);
+        std::process::exit(1);
+      }
+    }
     _ => {
       eprintln!("unknown scenario");
       std::process::exit(2);
